@@ -336,9 +336,12 @@ class ReservablePriorityReqFilterStore(FilterStore):
             # Successful reservation; add to reservations list
             item_len = len(self.reserved_events)
             #check if there any items that satisfy filter condition in other items thatare not already reserved
-            for item in self.items[item_len:]:
+            for offset, item in enumerate(self.items[item_len:]):
 
                 if event.filter(item):
+                  # reservations are bound to items by position: bring the matching item to the
+                  # first unreserved position so that this reservation is bound to it
+                  self.items.insert(item_len, self.items.pop(item_len + offset))
 
 
                   self.reservations_get.append(event)
